@@ -42,9 +42,20 @@ def build(clean=False, timeout=1800):
     try:
         t = time.time()
         if clean:
-            for pat in ("*.vo", "*.vok", "*.vos", "*.glob", ".*.aux", "Makefile", "Makefile.conf", ".Makefile.d"):
-                for p in glob.glob(os.path.join(COQ, pat)):
-                    os.remove(p)
+            # full build from clean in a private copy (does not disturb checks running concurrently)
+            d = os.path.join(BUILD, f"cleanbuild.{os.getpid()}")
+            shutil.rmtree(d, ignore_errors=True)
+            os.makedirs(d)
+            listed = [l.strip() for l in open(os.path.join(COQ, "_CoqProject")) if l.strip().endswith(".v")]
+            for f in listed + ["_CoqProject"]:
+                shutil.copy(os.path.join(COQ, f), d)
+            try:
+                subprocess.run(["coq_makefile", "-f", "_CoqProject", "-o", "Makefile"], cwd=d, check=True, stdout=subprocess.DEVNULL)
+                r = subprocess.run(["make", "-j16"], cwd=d, stdout=subprocess.PIPE, stderr=subprocess.STDOUT, text=True, timeout=timeout)
+                if r.returncode != 0:
+                    raise CoqError("clean build of the Coq development failed:\n" + r.stdout[-4000:])
+            finally:
+                shutil.rmtree(d, ignore_errors=True)
         mk, cp = os.path.join(COQ, "Makefile"), os.path.join(COQ, "_CoqProject")
         if os.path.exists(mk) and os.path.getmtime(mk) < os.path.getmtime(cp):
             os.remove(mk)
